@@ -38,8 +38,8 @@ pub open spec fn stripped<T: Storable>(pre: Seq<Option<T>>, post: Seq<Option<T>>
                                           && pre[i].unwrap().same_content(&post[i].unwrap()))
 }
 /// with an empty id map only temporary ids can resolve
-pub proof fn lemma_nothing_resolves<T: Storable>(temp_ids: bool, id: Seq<char>)
-    ensures resolves_to::<T>(Map::<Seq<char>, T::HandleType>::empty(), temp_ids, id) is Some ==> is_temp_form::<T>(temp_ids, id),
+pub proof fn lemma_nothing_resolves<T: Storable>(store: Seq<Option<T>>, temp_ids: bool, id: Seq<char>)
+    ensures resolves_to::<T>(store, Map::<Seq<char>, T::HandleType>::empty(), temp_ids, id) is Some ==> is_temp_form::<T>(temp_ids, id),
 {}
 /// stripping keeps the representation invariant: every item still knows its handle, no item has an id, the map is empty
 pub proof fn lemma_stripped_wf<T: Storable>(pre: Seq<Option<T>>, m: Map<Seq<char>, T::HandleType>, post: Seq<Option<T>>)
@@ -127,7 +127,7 @@ def build():
         Fn('strip_data_ids', props=P, rewrites=[itermut('data', 'self.data')],
            loops=loop('data', 'self.config == old(self).config'),
            ensures=[('stripped', 'ds_stripped(*old(self), *final(self))'),
-                    ('nothing_resolves', 'forall|id: Seq<char>| (#[trigger] resolves_to::<AnnotationData>(final(self).data_idmap.data@, final(self).data_idmap.resolve_temp_ids, id)) is Some ==> is_temp_form::<AnnotationData>(final(self).data_idmap.resolve_temp_ids, id)')]),
+                    ('nothing_resolves', 'forall|id: Seq<char>| (#[trigger] resolves_to::<AnnotationData>(final(self).data@, final(self).data_idmap.data@, final(self).data_idmap.resolve_temp_ids, id)) is Some ==> is_temp_form::<AnnotationData>(final(self).data_idmap.resolve_temp_ids, id)')]),
     ])
     # ------------------------------------------------------------------ the store
     u.item(AS, 'struct', 'AnnotationStore', keep_fields=['config', 'annotations', 'annotationsets', 'annotation_idmap'], keep_derives=[])
@@ -139,7 +139,7 @@ def build():
            ensures=[('stripped', 'stripped(old(self).annotations@, final(self).annotations@)'),
                     ('idmap_empty', 'final(self).annotation_idmap.data@ == Map::<Seq<char>, AnnotationHandle>::empty()'),
                     ('temp_ids', 'final(self).annotation_idmap.resolve_temp_ids == old(self).config.strip_temp_ids'),
-                    ('nothing_resolves', 'forall|id: Seq<char>| (#[trigger] resolves_to::<Annotation>(final(self).annotation_idmap.data@, final(self).annotation_idmap.resolve_temp_ids, id)) is Some ==> is_temp_form::<Annotation>(final(self).annotation_idmap.resolve_temp_ids, id)'),
+                    ('nothing_resolves', 'forall|id: Seq<char>| (#[trigger] resolves_to::<Annotation>(final(self).annotations@, final(self).annotation_idmap.data@, final(self).annotation_idmap.resolve_temp_ids, id)) is Some ==> is_temp_form::<Annotation>(final(self).annotation_idmap.resolve_temp_ids, id)'),
                     ('frame', 'final(self).annotationsets@ == old(self).annotationsets@ && final(self).config == old(self).config')]),
         Fn('strip_data_ids', props=P, rewrites=[itermut('annotationset', 'self.annotationsets')],
            loops={0: dict(invariant=[
